@@ -66,7 +66,7 @@ def C10_full : Prop :=
 
 /-! ## it does not hold: the `serde(rename)` of an item is printed raw, whatever it contains
 
-(Until the `fix:` commit fb91590 the witness was a Scala package name without a dot, which left an
+(Until the `fix:` commit 653aee1 the witness was a Scala package name without a dot, which left an
 unmatched `}`; that finding is repaired, see `scala_package_without_dot_repaired` below.  None of the
 other open classes breaks the *lexical* layer on its own — they break the declaration grammar — but
 the mechanism of `dashed-type-name` does: the new name of an item is copied into the declaration
@@ -96,7 +96,7 @@ theorem C10_not_full : ¬ C10_full := by
 
 /-- the repaired finding **scala-package-without-dot** as a positive regression example:
 `typeshare --lang scala --scala-package pkg` on `#[typeshare] struct S;` now opens the package block
-it closes (before fb91590 the whole output was `class S extends Serializable\n\n}\n`) -/
+it closes (before 653aee1 the whole output was `class S extends Serializable\n\n}\n`) -/
 theorem scala_package_without_dot_repaired :
     Scala.generate { package := s%"pkg" } { structs := [witnessStruct] } =
       .ok s%"package pkg {\n\nclass S extends Serializable\n\n}\n" ∧
@@ -207,7 +207,7 @@ example : Known_DashedTypeName (.struct dashedStruct) = true := by decide
 example : Known_DashedTypeName (.struct bracedStruct) = true := by decide
 
 /-- formerly a witness of **python-generic-alias** (`G[T] = List[T]`: a subscripted assignment target,
-`T` undeclared); since the `fix:` commit 614135b the alias is an ordinary assignment and `T` is
+`T` undeclared); since the `fix:` commit f8d1040 the alias is an ordinary assignment and `T` is
 registered as a `TypeVar` (written, with its import, in the file header) - kept as a regression -/
 theorem python_generic_alias_repaired :
     (Python.aliasFacts {} genericAlias {}).bind (fun r => .ok (Python.renderAlias r.1, r.2.typeVars, r.2.imports)) =
@@ -215,7 +215,7 @@ theorem python_generic_alias_repaired :
   decide
 
 /-- formerly the class **python-docstring-escape** (`\x`, `\u`, `\U`, `\N` in doc text were malformed
-escapes of the non-raw docstring); since the `fix:` commit 37d8a26 backslashes are doubled: reading a
+escapes of the non-raw docstring); since the `fix:` commit af54d85 backslashes are doubled: reading a
 written doc line left to right, every backslash is followed by a backslash or a `"`
 (`C10PyDoc.pyEscapesOk`) — for every string -/
 theorem python_docstring_escapes_repaired (c : Str) : C10PyDoc.pyEscapesOk (Python.escapeDoc c) = true :=
@@ -407,7 +407,7 @@ theorem C10_scala_enum (cfg : Scala.Cfg) (H : C10Scala.CfgOk cfg) (e : RustEnum)
 
 /-- **Scala, the whole file** — for every package name that is a dotted identifier fragment, with
 or without a dot (the hypothesis "the package name splits at a dot" of the previous rounds is gone
-with the `fix:` commit fb91590: a name without a dot is its own innermost package) -/
+with the `fix:` commit 653aee1: a name without a dot is its own innermost package) -/
 theorem C10_scala_file (cfg : Scala.Cfg) (H : C10Scala.CfgOk cfg) (d : ParsedData) (hd : C10Scala.DataOk d)
     (hv : ∀ v, cfg.versionHeader = some v → Dotted v)
     (hpkg : Dotted cfg.package)
